@@ -13,6 +13,7 @@ import ProductMD.Proofs.C05WitnessTI00
 import ProductMD.Properties.C03
 import ProductMD.Properties.C02
 import ProductMD.Properties.C09
+import ProductMD.Properties.C10
 import ProductMD.Model.ComposeInfoLegacy
 import ProductMD.Model.TreeInfoLegacy
 import ProductMD.Model.RpmsLegacy
@@ -131,6 +132,47 @@ example : versionTuple (.str (L "1.0")) = .ok (.nums (1, 0)) ∧ verLe (1, 0) (1
     ∧ versionTuple (.str (L "0.2")) = .ok (.nums (0, 2)) ∧ verLe (0, 2) (1, 0) = true
     ∧ ([(L "path", PyVal.str (L "a.iso"))] : List (Str × PyVal)).find? (·.1 == L "subvariant") = none := by decide +kernel
 
+open PM.Img.C10 in
+/-- **faithful, a whole ≤ 1.0 images document** (general: any number of variants, arches and images; composition of
+`C10_images_refile` — the exact filing of a ≤ 1.1 document incl. the `src` re-filing — with `C05_images_faithful_subvariant`):
+for a document of a version `v ≤ (1, 0)` whose image table is `O` and whose image dictionaries carry no `subvariant`, the
+filings of the loaded manifest are exactly: the object the CURRENT reader makes of the k-th dictionary with
+`"subvariant": ""` added, under `(variant, b)` for every `b` the dictionary's place `(variant, a)` stands for (all arch keys of
+the variant but `src` when `a = src`, `a` itself otherwise).  Nothing else is filed, nothing is lost. -/
+theorem C05_images_faithful_old_doc (doc : PyVal) (s : ImgState) (h : Img.deserialize doc = .ok s)
+    (ver : PyVal) (hver : Img.headerDeserialize doc = .ok ver) (v : Nat × Nat) (hvt : Img.versionTuple ver = .ok (.nums v))
+    (hold : verLe v (1, 0) = true)
+    (payload : PyVal) (hp : PyOps.item doc (L "payload") = .ok payload) (O : OutCells) (hO : OutNodup O)
+    (himg : PyOps.item payload (L "images") = .ok O.toPy)
+    (hsub : ∀ x ∈ outTriples O, ∃ kvs, x.2.2 = .dict kvs ∧ kvs.find? (·.1 == L "subvariant") = none) :
+    ∀ vr b k img, (vr, b, k, img) ∈ entries s.cells ↔
+      ∃ a kvs as, (outTriples O)[k]? = some (vr, a, .dict kvs)
+        ∧ Image.deserialize (.str currentVersion) (.dict (kvs ++ [(L "subvariant", .str [])])) = .ok img
+        ∧ (vr, as) ∈ O ∧ b ∈ targets (as.map (·.1)) a := by
+  have hold11 : gateEval Gen.gate_images_Images_deserialize_0 (.nums v) = .ok true := by
+    rw [(C05_images_gates v).2.1]
+    obtain ⟨a, b⟩ := v
+    simp only [verLe, Bool.or_eq_true, Bool.and_eq_true, decide_eq_true_eq, beq_iff_eq] at hold ⊢
+    congr 1
+    simp only [Bool.or_eq_true, Bool.and_eq_true, decide_eq_true_eq, beq_iff_eq]
+    omega
+  intro vr b k img
+  rw [C10_images_refile doc s h ver hver (.nums v) hvt hold11 payload hp O hO himg]
+  constructor
+  · rintro ⟨a, d, as, hk, hd, hv, hb⟩
+    obtain ⟨kvs, hkv, hno⟩ := hsub _ (List.mem_of_getElem? hk)
+    simp only at hkv
+    subst hkv
+    rw [C05_images_faithful_subvariant ver v hvt hold kvs hno] at hd
+    exact ⟨a, kvs, as, hk, hd, hv, hb⟩
+  · rintro ⟨a, kvs, as, hk, hd, hv, hb⟩
+    obtain ⟨kvs', hkv, hno⟩ := hsub _ (List.mem_of_getElem? hk)
+    simp only at hkv
+    injection hkv with hkv
+    subst hkv
+    rw [← C05_images_faithful_subvariant ver v hvt hold kvs hno] at hd
+    exact ⟨a, .dict kvs, as, hk, hd, hv, hb⟩
+
 /-- **faithful, 1.1 and later** (every version `v` with `¬ v ≤ (1, 0)`): the image reader does not depend on the version —
 nothing is defaulted, a document without `subvariant` is refused as by the current reader -/
 theorem C05_images_faithful_from_1_1 (ver : PyVal) (v : Nat × Nat) (hvt : versionTuple ver = .ok (.nums v))
@@ -173,6 +215,31 @@ example : (match upgradeCycle wOldDoc with
     | .ok (s, d1, s2, d2) => s.cells.all.length == 4 && PyVal.beq (PyVal.canon d1) (PyVal.canon d2)
         && pyEq s.compose.date (.str (L "20150522")) && pyEq s.compose.type (.str (L "nightly")) && pyEq s.compose.respin (.int 3)
     | .error _ => false) = true := by decide +kernel
+
+/-- a 1.0 document for `C05_images_faithful_old_doc`: no `subvariant` anywhere, a `src` cell -/
+def wImg10 (p a : String) : PyVal := .dict [(L "path", .str (L p)), (L "mtime", .int 1), (L "size", .int 1), (L "volume_id", .none),
+    (L "type", .str (L "dvd")), (L "format", .str (L "iso")), (L "arch", .str (L a)), (L "disc_number", .int 1),
+    (L "disc_count", .int 1), (L "checksums", .dict [(L "md5", .str (L p))]), (L "implant_md5", .none), (L "bootable", .bool false)]
+def wTable10 : OutCells := [(L "Server", [(L "i386", [wImg10 "b.iso" "i386"]), (L "src", [wImg10 "s.iso" "src"]), (L "x86_64", [wImg10 "a.iso" "x86_64"])])]
+def wDoc10 : PyVal :=
+  .dict [(L "header", .dict [(L "version", .str (L "1.0"))]),
+    (L "payload", .dict [(L "compose", .dict [(L "id", .str (L "F-22-20150522.n.3")), (L "type", .str (L "nightly")),
+        (L "date", .str (L "20150522")), (L "respin", .int 3)]),
+      (L "images", wTable10.toPy)])]
+
+/-- its hypotheses hold: the document loads, header 1.0 ≤ (1, 0), unique keys, no `subvariant`; and the source image is
+filed under both binary arches (4 filings from 3 dictionaries) -/
+example : (Img.deserialize wDoc10).toBool = true ∧ Img.headerDeserialize wDoc10 = .ok (.str (L "1.0"))
+    ∧ Img.versionTuple (.str (L "1.0")) = .ok (.nums (1, 0)) ∧ OutNodup wTable10
+    ∧ (∀ x ∈ outTriples wTable10, ∃ kvs, x.2.2 = .dict kvs ∧ kvs.find? (·.1 == L "subvariant") = none)
+    ∧ (match Img.deserialize wDoc10 with | .ok s => (entries s.cells).length | .error _ => 0) = 4 := by
+  refine ⟨by decide +kernel, by rfl, by rfl, ⟨by decide, by decide⟩, ?_, by decide +kernel⟩
+  intro x hx
+  have : outTriples wTable10 = [(L "Server", L "i386", wImg10 "b.iso" "i386"), (L "Server", L "src", wImg10 "s.iso" "src"),
+      (L "Server", L "x86_64", wImg10 "a.iso" "x86_64")] := rfl
+  rw [this] at hx
+  simp only [List.mem_cons, List.not_mem_nil, or_false] at hx
+  rcases hx with rfl | rfl | rfl <;> exact ⟨_, rfl, by decide⟩
 
 end Images
 
